@@ -20,6 +20,7 @@ RULE = ('Contractive BlockSpecs (horizon 0-6) whose exogenous variables are give
         'with Model.AddExogenous (list/tuple/str), AddInitialCondition and Model.MaxTime. Non-trivial: an exogenous series '
         'strictly longer than horizon+1 or a scalar, together with an initial condition on a non-simultaneous variable; '
         'or an invalid-input case. Distinct: sha1 of the spec.')
+RULE = RULE + (' Input shapes added after the seeded-change rounds (DESIGN.md section 8): ' + 'math constants / functions in constant expressions; values needing all 17 significant digits; the horizon set on the solver, edited on the parser afterwards, or set too late to matter.')
 ASSUMPTIONS = [
     'initial conditions on exogenous variables are outside the quantifier and not generated',
     'an int scalar exogenous value may be either broadcast or refused (the statement only promises float scalars)',
